@@ -417,6 +417,61 @@ def run(ctx):
     nt_pop = [dict(gen_cell(Rng(4), "quick", 5, 3))]
     o, _, _ = vlib.run_lines(exe, [pop_line(nt_pop)])
     no_type_obs = o[0].split(" read ", 1)[1][:12] if o and " read " in o[0] else None
+    # the std::vector<mesh> overload of write_cell_data_file (debug helper of the test-suite; faces of any arity;
+    # no CELL_DATA, so such a file is no start-up input): real write + real read + character-level model read
+    mesh_stats = {"cases": 0, "failures": 0, "model_mismatch": 0}
+    mlines2, mexp = [], []
+    rm = Rng(seed).fork("meshes")
+    for _ in range(12 if tier == "quick" else 150):
+        ml = []
+        for _ in range(rm.randint(1, 5)):
+            if rm.randint(0, 1):
+                v, f = _cube()
+                f = [(0, 1, 2, 3), (4, 6, 7, 5), (0, 4, 5, 1), (3, 2, 7, 6), (0, 3, 6, 4), (1, 5, 7, 2)]      # quadrilaterals
+            else:
+                v, f = rm.choice(BASES)()
+            sc = 10.0 ** rm.uniform(-9, 6)
+            ml.append(([sc * x * rm.choice([1.0, -1.0]) for p in v for x in p], f))
+        w = ["meshes", str(len(ml))]
+        e = ["types", "0", "cells", str(len(ml))]
+        for pts, f in ml:
+            w += [str(len(pts))] + [fhex(x) for x in pts] + [str(len(f))]
+            e += ["nodes", str(len(pts))] + [fhex(float(fmt4e(x))) for x in pts] + ["faces", str(len(f))]
+            for t in f:
+                w += [str(len(t))] + [str(i) for i in t]
+                e += [str(len(t))] + [str(i) for i in t]
+        mlines2.append(" ".join(w))
+        mexp.append(" ".join(e))
+    mo, _, _ = vlib.run_lines(exe, mlines2)
+    drv17 = vlib.driver_path("drv_c17")
+    for i, a in enumerate(mo):
+        mesh_stats["cases"] += 1
+        got = a.split(" read ", 1)[1].split(" texc ")[0] if a.startswith("ok file ") and " read " in a else a[:100]
+        if got != mexp[i]:
+            mesh_stats["failures"] += 1
+            if mesh_stats["failures"] <= 2:
+                V.fail_input("a list of meshes written by write_cell_data_file(vector<mesh>) is not read back as written: %s" % got[:120], {"line": mlines2[i], "desc": "meshes"}, key=None)
+        elif os.path.exists(drv17):
+            # with a cell_type_id array appended the file is a complete input: real reader vs character-level model
+            nm = int(mexp[i].split()[3])
+            full = bytes.fromhex(a.split(" ", 3)[2]) + ("\nCELL_DATA %d\nFIELD FieldData 1\ncell_type_id 1 %d int\n%s\n" % (nm, nm, " ".join(["0"] * nm))).encode()
+            ex17, _ = vlib.build_repo.build_harness(os.path.join(vlib.VERIF, "harness", "h_startup.cpp"), "h_startup")
+            r17, _, _ = vlib.run_lines(ex17, ["reader " + full.hex()])
+            m17, _, _ = vlib.run_lines(drv17, ["reader " + full.hex()])
+            want = "ok types %d %s%s" % (nm, " ".join(["0"] * nm), mexp[i][len("types 0"):])
+            real17 = re.sub(r" rss=\d+$", "", r17[0]) if r17 else "-"
+            if not (m17 and real17 == want and m17[0] == want):
+                mesh_stats["model_mismatch"] += 1
+                if mesh_stats["model_mismatch"] <= 2:
+                    V.fail_tie("correspondence", "polygon file: real reader `%s` model `%s`" % (real17[:100], m17[0][:100] if m17 else "-"))
+    # observation (not part of the property: a vector<mesh> is not a population of cells): an empty mesh in the
+    # list makes the overload drop the cells behind it and declare counts that do not match
+    tet = "12 " + " ".join(fhex(x) for x in [0, 0, 0, 1, 0, 0, 0, 1, 0, 0, 0, 1]) + " 4 3 0 2 1 3 0 1 3 3 1 2 3 3 2 0 3"
+    oo, _, _ = vlib.run_lines(exe, ["meshes 3 %s 0 0 %s" % (tet, tet)])
+    empty_mesh_obs = None
+    if oo and oo[0].startswith("ok file "):
+        txt = bytes.fromhex(oo[0].split(" ", 3)[2]).decode("latin-1")
+        empty_mesh_obs = {"CELLS_line": [l for l in txt.split("\n") if l.startswith("CELLS")], "cells_read_back": oo[0].split(" read ", 1)[1].split(" cells ")[1].split(" ")[0]}
     rcode, nviol = V.finish()
     cov = {
         "obligations": proof["obligations"], "discharged": proof["discharged"],
@@ -437,6 +492,7 @@ def run(ctx):
         "coordinates_written": stats["coords"], "file_bytes": stats["bytes"],
         "oracle_failures": stats["oracle_fail"], "count_audit_failures": stats["audit_fail"], "model_vs_impl_disagreements": stats["tie_mismatch"],
         "nonfinite_refused": nonfinite_ok, "observation_cell_without_type_reads_as": no_type_obs,
+        "mesh_overload": mesh_stats, "observation_mesh_overload_with_an_empty_mesh_in_the_middle_of_3": empty_mesh_obs,
         "repo_objects_rebuilt": rebuilt, "samples": samples,
     }
     vlib.write_evidence(PID, tier, "proof", cov, [
